@@ -166,8 +166,11 @@ func (interp *Interpreter) importSrc(rPath, importPath string, skipTest bool) (s
 		initNodes = append(initNodes, m.node)
 	}
 
+	// The init functions belong to the run generation of the evaluation which
+	// imports the package (the root frame's), so that a cancellation which
+	// arrived while the package variables were initialised stops them too.
 	for _, n := range initNodes {
-		interp.run(n, interp.frame)
+		interp.runWithID(n, interp.frame, interp.frame.runid())
 	}
 
 	return pkgName, nil
